@@ -32,10 +32,10 @@ func c09ZcryptoTaint(c *Ctx, r *Report) map[string]bool {
 		return nil
 	}
 	in := f.Params[0]
-	T := map[ssa.Value]bool{}   // tainted values
-	TA := map[ssa.Value]bool{}  // addresses whose content is tainted
-	F := map[string]bool{}      // tainted root fields of Certificate
-	why := map[string]string{}  // first reason per field
+	T := map[ssa.Value]bool{}  // tainted values
+	TA := map[ssa.Value]bool{} // addresses whose content is tainted
+	F := map[string]bool{}     // tainted root fields of Certificate
+	why := map[string]string{} // first reason per field
 	CB := map[*ssa.BasicBlock]bool{}
 	tif := map[*ssa.BasicBlock]bool{} // blocks ending in a tainted If
 	srcs := 0
